@@ -38,7 +38,7 @@ func init() {
 		QuickBudget: 40 * time.Second, ThoroughBudget: 12 * time.Minute,
 		MinRuns:    30,
 		Exec:       runC16,
-		PanicClass: kit.PanicInRepo("evm-panic"),
+		PanicClass: panicInRepo("evm-panic"),
 	})
 }
 
@@ -199,5 +199,29 @@ func runC16(r *kit.Run) {
 		}
 		r.Logf("pass %s -> %s; outcomes %v, %d failed frames, %d steps, trace %016x", s, verdict, res.txOutcome, res.o.failedFrames, res.o.stepIdx, res.o.hash)
 		r.FP(s.mode, verdict, strings.Join(res.o.fp, ","))
+	}
+}
+
+// panicInRepo is kit.PanicInRepo with one difference: the code under test is recognised by a
+// "/repo/" path component rather than the "/repo/" prefix, so that a panic inside the scratch
+// copy that mutant.sh builds from (/tmp/mutant.*/repo/...) is a violation too, not a harness
+// error. A panic whose first frame outside the runtime and kit is harness code stays a
+// harness error.
+func panicInRepo(cls string) func(v interface{}, stack string) string {
+	return func(v interface{}, stack string) string {
+		for _, ln := range strings.Split(stack, "\n") {
+			ln = strings.TrimSpace(ln)
+			if !strings.HasPrefix(ln, "/") {
+				continue
+			}
+			if strings.Contains(ln, "/runtime/") || strings.Contains(ln, "kit/run.go") || strings.Contains(ln, "/src/") || strings.Contains(ln, "/pkg/mod/") {
+				continue
+			}
+			if strings.Contains(ln, "/repo/") && !strings.HasPrefix(ln, "/verif/") {
+				return cls
+			}
+			return ""
+		}
+		return ""
 	}
 }
